@@ -38,7 +38,7 @@ m = {
                  "kind_free_text": "mechanical extraction (syn) of the real function bodies into Verus templates carrying hand-written contracts over a ghost run-token protocol; Verus/z3 discharges every obligation; real-crate replays through cfg-guarded hooks"}],
     "checks": checks,
     "not_applicable": na,
-    "notes": "See DESIGN.md (4.1: what is believed). Exit 0 = every obligation of the property discharged on this tree; exit 1 + VIOLATION line = a tagged obligation was refuted (or a structural obligation / bounded stand-in failed); exit 2 + UNDECIDED line = nothing was refuted but the property could not be decided on this tree (lost anchor, construct outside the dialect, a function outside every contract changed, an auxiliary proof step failed, tooling) - never a violation. tools/regress.sh re-runs the checks on 106 seeded property-breaking changes and 123 behaviour-preserving refactorings written by independent sub-agents (/verif/seeded, /verif/benign).",
+    "notes": "See DESIGN.md (4.1: what is believed). Exit 0 = every obligation of the property discharged on this tree; exit 1 + VIOLATION line = a tagged obligation was refuted (or a structural obligation / bounded stand-in failed); exit 2 + UNDECIDED line = nothing was refuted but the property could not be decided on this tree (lost anchor, construct outside the dialect, a function outside every contract changed, an auxiliary proof step failed, tooling) - never a violation. tools/regress.sh re-runs the checks on 107 seeded property-breaking changes and 123 behaviour-preserving refactorings written by independent sub-agents (/verif/seeded, /verif/benign).",
 }
 json.dump(m, open(os.path.join(ROOT, "MANIFEST.json"), "w"), indent=1)
 print("MANIFEST.json written: %d checks, %d not_applicable" % (len(checks), len(na)))
